@@ -70,6 +70,12 @@ impl Params {
         let mem = self.mem.get() / 1024;
         let mem = u32::try_from(mem).map_err(|_| PasetoError::InvalidKey)?;
 
+        // argon2 multiplies the lane count by 8 before it range-checks it, which overflows (a panic
+        // in builds with overflow checks) for counts it would refuse anyway
+        if self.para.get() > argon2::Params::MAX_P_COST {
+            return Err(PasetoError::InvalidKey);
+        }
+
         let params = argon2::ParamsBuilder::new()
             .m_cost(mem)
             .p_cost(self.para.get())
